@@ -97,6 +97,14 @@ CHECKS = {
              "product_length, clockwise_from_lower_left, footprint_axis_range. Tied by AST pins and by comparing, node for node and "
              "corner for corner, with the model evaluated in Coq (corners observed through identity WCSs).",
         ref="5 C18", technique="Coq proof over hand-written exact model + AST pins + vm_compute correspondence"),
+    "C12": dict(
+        text="Theorems over a token model of CompositeFrame (world values and metadata entries are abstract, so routing is exact): "
+             "metadata_describes_output (entry i of units/names/physical types/components is that of the slot owning world axis i, for any "
+             "frames whose axes partition 0..n-1) and gather_route_id (objects fed back give the world values in world-axis order, any "
+             "listing order of the frames); refutation witnesses of the two legacy defects repaired in /repo. Tied by AST pins and by "
+             "comparing, for EVERY permutation of world axes among sub-frame slots (n<=4), the routing observed on the implementation "
+             "with the model evaluated in Coq; objects compared with astropy's generic wrapper; round trips.",
+        ref="5 C12", technique="Coq proof over hand-written token model + AST pins + exhaustive-permutation correspondence"),
 }
 
 NOT_YET = "check not built yet in this session (work in progress; see DESIGN.md section 10 build order)"
